@@ -15,6 +15,26 @@ pub fn validated_ast_to_machine(file: &File) -> Machine {
     normalize_machine(unnormalized)
 }
 
+/// Verification hook: the FIRST map computed for `file`, one entry per
+/// nonterminal (name, terminals in set order, nullable), sorted by name.
+#[cfg(kiki_verif)]
+pub fn verif_first_sets(file: &File) -> Vec<(String, Vec<String>, bool)> {
+    let context = ImmutContext::new(file);
+    let mut out: Vec<(String, Vec<String>, bool)> = context
+        .first_sets
+        .iter()
+        .map(|(name, set)| {
+            (
+                name.clone(),
+                set.terminals.iter().map(|t| t.raw().to_owned()).collect(),
+                set.contains_epsilon,
+            )
+        })
+        .collect();
+    out.sort();
+    out
+}
+
 #[derive(Debug, Clone)]
 struct UnnormalizedMachineBuilder<'a> {
     context: ImmutContext<'a>,
